@@ -315,6 +315,7 @@ def main(mod_name: str, argv=None):
     ap.add_argument("--sub", default=None, help="only run this sub-check (development)")
     ap.add_argument("--scale", type=float, default=1.0, help="scale budgets (development)")
     ap.add_argument("--no-evidence", action="store_true")
+    ap.add_argument("--no-replays", action="store_true", help="skip the replay tier (development: sensitivity of the generated tier)")
     ap.add_argument("--no-replay-write", action="store_true", help="write found violations under /var/tmp instead of replays/")
     args = ap.parse_args(argv)
     tier = args.tier if args.tier in ("quick", "thorough") else "quick"
@@ -363,7 +364,7 @@ def main(mod_name: str, argv=None):
     # ---- replay tier -------------------------------------------------------------------
     replay_accs: dict[str, _Acc] = {}
     n_replays = 0
-    for path in _replay_files(pid):
+    for path in ([] if args.no_replays else _replay_files(pid)):
         try:
             r, acc = replay_file(mod, path, known, replay_accs)
         except BaseException as e:
